@@ -70,12 +70,6 @@ def is_slashable_attestation_data (data_1 data_2 : AttestationData) : Bool :=
   -- Surround vote
   (data_1.source.epoch < data_2.source.epoch && data_2.target.epoch < data_1.target.epoch)
 
-/-- `indices == sorted(set(indices))`: strictly increasing -/
-def sortedUnique : List Nat → Bool
-  | [] => true
-  | [_] => true
-  | a :: b :: rest => a < b && sortedUnique (b :: rest)
-
 /-- `is_valid_indexed_attestation`. The pubkey look-up `state.validators[i]` raises for an index out
 of range (⇒ the block is invalid); the BLS verification is the oracle Boolean. -/
 def is_valid_indexed_attestation (s : State) (indices : List Nat) (sig_ok : Bool) : SM Bool := do
@@ -103,7 +97,7 @@ def is_valid_merkle_branch (leaf : Bytes) (branch : List Bytes) (depth index : N
 /-! ## Registry mutators -/
 
 /-- `slash_validator` [Modified in Altair: quotient, proposer reward] [Modified in Bellatrix: quotient] -/
-def slash_validator (cfg : Config) (s : State) (slashed_index : Nat) (whistleblower_index : Option Nat := none) : SM State := do
+def slash_validator_m (cfg : Config) (s : State) (slashed_index : Nat) (whistleblower_index : Option Nat := none) : SM State := do
   let epoch := get_current_epoch cfg s
   let s ← initiate_validator_exit cfg s slashed_index
   let validator ← idx s.validators slashed_index "validators"
@@ -130,6 +124,14 @@ def slash_validator (cfg : Config) (s : State) (slashed_index : Nat) (whistleblo
       pure (whistleblower_reward * PROPOSER_WEIGHT / WEIGHT_DENOMINATOR)
   let s ← increase_balance s proposer_index proposer_reward
   increase_balance s whistleblower_index (whistleblower_reward - proposer_reward)
+
+/-- `slash_validator` as block processing calls it (no whistleblower argument): the monadic version, compared with
+`slash_validator_pure` (which the refinement theorem `slash_eq` is about) on every evaluation -/
+def slash_validator (cfg : Config) (s : State) (slashed_index : Nat) : SM State :=
+  let r := slash_validator_m cfg s slashed_index
+  match get_beacon_proposer_index cfg s with
+  | .ok p => crossCheck "slash_validator" (slash_validator_pure cfg s slashed_index p) r
+  | .error _ => r
 
 /-! ## Block header, RANDAO, Eth1 data -/
 
@@ -211,21 +213,14 @@ def process_attester_slashing (cfg : Config) (s : State) (attester_slashing : At
   require (is_slashable_attestation_data attestation_1.data attestation_2.data) "attester_slashing.not_slashable_data"
   require (← is_valid_indexed_attestation s attestation_1.attesting_indices attestation_1.sig_ok) "attester_slashing.attestation_1_invalid"
   require (← is_valid_indexed_attestation s attestation_2.attesting_indices attestation_2.sig_ok) "attester_slashing.attestation_2_invalid"
-  let mut slashed_any := false
-  let mut s := s
   let indices := sortedIntersection attestation_1.attesting_indices attestation_2.attesting_indices
-  for index in indices do
-    if is_slashable_validator (← idx s.validators index "validators") (get_current_epoch cfg s) then
-      s ← slash_validator cfg s index
-      slashed_any := true
+  -- `for index in sorted(indices): if is_slashable_validator(...): slash_validator(state, index); slashed_any = True`
+  let (s, slashed_any) ← indices.foldlM (fun (acc : State × Bool) index => do
+    if is_slashable_validator (← idx acc.1.validators index "validators") (get_current_epoch cfg acc.1) then
+      pure ((← slash_validator cfg acc.1 index), true)
+    else pure acc) (s, false)
   require slashed_any "attester_slashing.nobody_slashed"
   pure s
-
-def insertionSort (l : List Nat) : List Nat :=
-  let rec ins (x : Nat) : List Nat → List Nat
-    | [] => [x]
-    | y :: ys => if x ≤ y then x :: y :: ys else y :: ins x ys
-  l.foldl (fun acc x => ins x acc) []
 
 /-- The first assertions of `process_attestation`, on the data's epochs and slot:
 ```python
@@ -247,7 +242,7 @@ def attestation_timing (cfg : Config) (s : State) (data : AttestationData) : SM 
 
 /-- `process_attestation` [phase0: pending attestations] [Modified in Altair: participation flags,
 proposer reward] [Modified in Deneb:EIP7045: no upper bound of the inclusion window] -/
-def process_attestation (cfg : Config) (s : State) (attestation : Attestation) : SM State := do
+def process_attestation_m (cfg : Config) (s : State) (attestation : Attestation) : SM State := do
   let data := attestation.data
   attestation_timing cfg s data
   require (data.index < (← get_committee_count_per_slot cfg s data.target.epoch)) "attestation.committee_index"
@@ -297,6 +292,22 @@ def process_attestation (cfg : Config) (s : State) (attestation : Attestation) :
     let proposer_reward_denominator := (WEIGHT_DENOMINATOR - PROPOSER_WEIGHT) * WEIGHT_DENOMINATOR / PROPOSER_WEIGHT
     let proposer_reward := proposer_reward_numerator / proposer_reward_denominator
     increase_balance s (← get_beacon_proposer_index cfg s) proposer_reward
+
+/-- `process_attestation`: the monadic version, compared on every evaluation with the pure cores
+`process_attestation_phase0_pure` / `process_attestation_altair_pure` (which the refinement theorems
+`attestation_phase0_eq` / `attestation_altair_eq` are about), instantiated with the specification's committee
+count, committee, proposer and total active balance of this state -/
+def process_attestation (cfg : Config) (s : State) (attestation : Attestation) : SM State :=
+  let r := process_attestation_m cfg s attestation
+  let count := (get_committee_count_per_slot cfg s attestation.data.target.epoch).toOption
+  let committee := (get_beacon_committee cfg s attestation.data.slot attestation.data.index).toOption
+  let proposer := (get_beacon_proposer_index cfg s).toOption
+  if s.fork = .phase0 then
+    crossCheck "process_attestation" (process_attestation_phase0_pure cfg s attestation count committee proposer) r
+  else
+    match get_total_active_balance cfg s with
+    | .ok T => crossCheck "process_attestation" (process_attestation_altair_pure cfg s attestation count committee proposer T) r
+    | .error _ => r
 
 /-- `get_validator_from_deposit` -/
 def get_validator_from_deposit (cfg : Config) (pubkey withdrawal_credentials : Bytes) (amount : Nat) : SM Validator := do
